@@ -272,3 +272,45 @@ func keys(m map[string]int) []string {
 	sort.Strings(ks)
 	return ks
 }
+
+// Race-directed refinement: an unsynchronised counter increment is invisible to a
+// scheduler that only switches at synchronisation operations; once the access sites are
+// found racing they become scheduling points and the lost update is explored.
+func TestRaceDirectedPoints(t *testing.T) {
+	type counter struct{ n int }
+	run := func(locked bool) *Result {
+		return Explore(Options{Name: fmt.Sprintf("race-toy/locked=%v", locked), Bound: 2}, func(r *Run) {
+			c := &counter{}
+			var mu Mutex
+			var wg WaitGroup
+			for i := 0; i < 2; i++ {
+				wg.Add(1)
+				Go(func() {
+					defer wg.Done()
+					if locked {
+						mu.Lock()
+						defer mu.Unlock()
+					}
+					// the instrumented form of c.n++
+					RaceR(&c.n, "toy.go:1")
+					tmp := c.n
+					RaceW(&c.n, "toy.go:1")
+					c.n = tmp + 1
+				})
+			}
+			wg.Wait()
+			r.Outcome("n=%d", c.n)
+		})
+	}
+	res := run(false)
+	if res.Outcomes["n=1"] == 0 || res.Outcomes["n=2"] == 0 {
+		t.Fatalf("unsynchronised increments: outcomes %v, want both n=1 (lost update) and n=2; sites %v", res.Outcomes, res.RaceSites)
+	}
+	if len(res.RaceSites) == 0 {
+		t.Fatalf("no racy site reported: %+v", res)
+	}
+	res = run(true)
+	if len(res.RaceSites) != 0 || res.Outcomes["n=1"] != 0 || res.Outcomes["n=2"] == 0 {
+		t.Fatalf("mutex-protected increments: outcomes %v, racy sites %v", res.Outcomes, res.RaceSites)
+	}
+}
